@@ -16,7 +16,9 @@
 (*        matters was asked for and nothing learned was forgotten);        *)
 (*   C12  no path from a failed store call to a result;                    *)
 (*   C09/C01/C02 at the level of the cache.                                *)
-(* CONSTANT Merge = "merge" is the protocol the properties need;           *)
+(* CONSTANT Merge = "merge" is the protocol the properties need (a reply's *)
+(* entry for @world is ignored); "mergeworld" (the tree before D18's fix)  *)
+(* and                                                                     *)
 (* "replace" (the pinned tree's `st.CachedBalances = balances`) is kept as *)
 (* a named deviation: TLC refutes C10 for it.                              *)
 (* With Emit = TRUE every finished behaviour is printed as one JSON line   *)
@@ -52,6 +54,9 @@ DeclFam ==
        [type |-> "monetary", name |-> "n", origin |-> Call("balance", <<Acc("b"), Ast>>), val |-> [t |-> "none"]] >>,
     << [type |-> "account", name |-> "x", origin |-> NoOrigin, val |-> VAcct("b")] >>,
     << [type |-> "monetary", name |-> "m", origin |-> Call("balance", <<Acc(WORLD), Ast>>), val |-> [t |-> "none"]] >>,
+    \* an origin that fetches, then balance(@world, ..): whatever the first reply volunteered, the second reads 0
+    << [type |-> "monetary", name |-> "n", origin |-> Call("balance", <<Acc("a"), Ast>>), val |-> [t |-> "none"]],
+       [type |-> "monetary", name |-> "m", origin |-> Call("balance", <<Acc(WORLD), Ast>>), val |-> [t |-> "none"]] >>,
     << [type |-> "account", name |-> "x", origin |-> NoOrigin, val |-> VAcct(WORLD)] >> }
 HasVar(ds, nm) == \E i \in 1..Len(ds) : ds[i].name = nm
 LeafFam(ds) == {[k |-> "acct", e |-> Acc(x)] : x \in {"a", "b", WORLD}}
@@ -73,6 +78,8 @@ StmtSeqs(ds) == {<<s>> : s \in SendFam(ds)}
                  ELSE {<<v, s>> : v \in SaveFam, s \in {u \in SendFam(ds) : u.src.k # "cap"}})
 Contents == IF Tiny THEN {[bal |-> [a |-> [USD |-> 5], b |-> [USD |-> 0]]], [bal |-> [a |-> [USD |-> 0], b |-> [USD |-> 4]]]}
             ELSE {[bal |-> [a |-> [USD |-> x], b |-> [USD |-> y]]] : x \in {0, 5}, y \in (IF Big THEN {-3, 0, 4} ELSE {0, 4})}
+                 \* a store that also holds an entry for @world (a ledger does)
+                 \cup {[bal |-> [a |-> [USD |-> 5], b |-> [USD |-> y], world |-> [USD |-> w]]] : y \in {0, 4}, w \in (IF Big THEN {-6, 7} ELSE {7})}
 Modes == {"exact", "sparse", "superset"}
 
 VARIABLES prog,     \* [vars, stmts, bal, flagovd]  (a case record in the sense of Sem!Run)
@@ -99,7 +106,8 @@ Pick == /\ phase = "pick"
         /\ UNCHANGED <<vi, si, env, pending, cache, calls, S, status, faultAt>>
 
 \* ---- the store ---------------------------------------------------------
-Content(p) == Bal0(prog, p[1], p[2])
+\* what the store holds (its own entry for @world included, if it has one)
+Content(p) == IF p[1] \in DOMAIN prog.bal /\ p[2] \in DOMAIN prog.bal[p[1]] THEN prog.bal[p[1]][p[2]] ELSE 0
 AllPairs == UNION {{<<a, as>> : as \in DOMAIN prog.bal[a]} : a \in DOMAIN prog.bal}
 \* the query actually sent: every pending pair of an account that has at least one pending pair not yet known
 QueryOf(pend, known) == {p \in pend : \E q \in pend : q[1] = p[1] /\ q \notin known}
@@ -107,8 +115,15 @@ Reply(mode, q) ==
   CASE mode = "exact"    -> [p \in q |-> Content(p)]
     [] mode = "sparse"   -> [p \in {x \in q : Content(x) # 0} |-> Content(p)]
     [] mode = "superset" -> [p \in AllPairs \cup q |-> Content(p)]
-Merged(c, rep) == IF Merge = "merge" THEN [p \in DOMAIN c \cup DOMAIN rep |-> IF p \in DOMAIN c THEN c[p] ELSE rep[p]]
-                  ELSE rep       \* the pinned tree: the reply REPLACES the cache
+\* "merge": what is known is kept, what the reply adds is learned, except an entry for @world (never asked for:
+\*          a store that volunteers one must not make balance(@world, X) store-dependent);
+\* "mergeworld": the same without that exception (the tree before the fix of D18: TLC refutes C10);
+\* "replace": the pinned tree, the reply REPLACES the cache (TLC refutes C10).
+NoWorld(rep) == [p \in {q \in DOMAIN rep : q[1] # WORLD} |-> rep[p]]
+MergeInto(c, rep) == [p \in DOMAIN c \cup DOMAIN rep |-> IF p \in DOMAIN c THEN c[p] ELSE rep[p]]
+Merged(c, rep) == CASE Merge = "merge" -> MergeInto(c, NoWorld(rep))
+                    [] Merge = "mergeworld" -> MergeInto(c, rep)
+                    [] OTHER -> rep
 Failing == faultAt = Len(calls) + 1
 
 \* run the batched balance query (one store call, or none when everything is known)
